@@ -183,7 +183,7 @@ func ruleExtremumSeed(c *Ctx) {
 					}
 				case *ast.KeyValueExpr:
 					if id, ok := x.Key.(*ast.Ident); ok && id.Name == sp.field {
-						if v, ok := info.ObjectOf(id).(*types.Var); ok && v.IsField() {
+						if v, ok := objOf(info, id).(*types.Var); ok && v.IsField() {
 							check(x.Value, x.Pos())
 						}
 					}
@@ -340,7 +340,7 @@ func ruleReplicaYearFromOwnPath(c *Ctx) {
 	}
 	var param types.Object
 	if s.Type.Params != nil && len(s.Type.Params.List) > 0 && len(s.Type.Params.List[0].Names) > 0 {
-		param = s.Info.ObjectOf(s.Type.Params.List[0].Names[0])
+		param = objOf(s.Info, s.Type.Params.List[0].Names[0])
 	}
 	n := 0
 	for _, site := range s.sites(callPred(s, "utils/io.IndexToTime")) {
@@ -354,7 +354,7 @@ func ruleReplicaYearFromOwnPath(c *Ctx) {
 		var yearObj types.Object
 		walkAll(call.Args[2], func(m ast.Node) bool {
 			if id, isId := m.(*ast.Ident); isId {
-				if v, isVar := s.Info.ObjectOf(id).(*types.Var); isVar {
+				if v, isVar := objOf(s.Info, id).(*types.Var); isVar {
 					yearObj = v
 				}
 			}
@@ -417,7 +417,7 @@ func (s *Scope) seriesCoversWindow(e ast.Expr, pos token.Pos, depth int) (bool, 
 	case *ast.ParenExpr:
 		return s.seriesCoversWindow(x.X, pos, depth+1)
 	case *ast.Ident:
-		o := s.Info.ObjectOf(x)
+		o := objOf(s.Info, x)
 		if o == nil {
 			return false, "unresolved"
 		}
